@@ -61,6 +61,17 @@ def run(ctx, log):
             ctx.violate("deep recursion did not end in a value or an error value (debug build)", source=s, observed=b[:200])
         elif ha != hb:
             ctx.violate("release and debug builds disagree on deep recursion", source=s, observed=hb[:200], expected=ha[:200])
+    # the whole family: every alignment of the stack against its 16-bit limit, both build profiles
+    fam = progcheck.deep_recursion_family()
+    frel = vlib.nlh("eval", ["6000000 " + vlib.hexs(s) for s, _ in fam], tag="c12f", timeout=600)
+    fdbg = vlib.nlh("eval", ["6000000 " + vlib.hexs(s) for s, _ in fam], tag="c12fd", profile="debug", timeout=1200)
+    for (s, val), a, b in zip(fam, frel, fdbg):
+        ctx.seen(s)
+        for label, o in (("release", a), ("debug", b)):
+            h = progcheck.head(o)
+            ctx.count("family:" + h.split()[0])
+            if h not in ("OK i%d" % val, "ERR Type") and not h.startswith("BUDGET"):
+                ctx.violate("a deep recursion ended with something other than its value or the recursion-limit error (%s build)" % label, source=s, observed=o[:200], expected="OK i%d or ERR Type" % val)
     # the model on a recursion depth the Coq side can afford (the stack is a list inside Coq)
     runcorr.run_corr(ctx, ["functie r(n) { als n == 0 { antwoord 0 } 1 + r(n - 1) } r(400)"], log, budget=20000, stages=("eval",), label="deep-recursion-model", shard_size=1)
     ctx.sample(dict(source=base[3], eval=obs["eval"][3][:160]))
